@@ -63,6 +63,11 @@ class MGen:
         self.e("rot180"); self.queries()
         self.e("xor", [self.w, self.h], self.content("edge")); self.e("rot180"); self.queries()
         self.e("tostring", [r.randrange(3)]); self.e("reparse", [r.randrange(3)])
+        # full-width band, full-height band, whole matrix, single cells at the far corner (word-aligned fast paths)
+        self.e("clear"); self.e("region", [0, r.randrange(self.h), self.w, 1]); self.queries(); self.e("getrow", [r.randrange(self.h), -1])
+        self.e("clear"); self.e("region", [r.randrange(self.w), 0, 1, self.h]); self.queries()
+        self.e("clear"); self.e("region", [0, 0, self.w, self.h]); self.e("flipall"); self.queries()
+        self.e("region", [max(0, self.w - 33), 0, min(33, self.w), self.h]); self.queries()
 
     def step(self):
         r, w, h = self.rng, self.w, self.h
